@@ -577,9 +577,17 @@ func (e *Env) RunLaw(c LawCase) (map[string]interface{}, error) {
 	ev := map[string]interface{}{"ev": "law", "t": c.T, "family": c.Family, "field": c.Field, "mutation": c.Mutation, "shape": c.Shape,
 		"cloneEqual": false, "equalSym": false, "reflexive": false, "unshared": false, "distinguishes": false, "err": ""}
 	mk := func() model.Model {
-		if c.Shape == "empty" {
+		if c.Shape == "empty" || c.Shape == "emptyAlloc" {
 			m := reflect.New(f.typ)
 			fieldByTag(m.Elem(), "_uuid").SetString(rowUUID)
+			if c.Shape == "emptyAlloc" {
+				// empty, but allocated: a map without entries, a slice without elements but with room, a pointer to ""
+				e := m.Elem()
+				fieldByTag(e, "ss").Set(reflect.ValueOf(make([]string, 0, 4)))
+				fieldByTag(e, "mss").Set(reflect.ValueOf(map[string]string{}))
+				z := ""
+				fieldByTag(e, "os").Set(reflect.ValueOf(&z))
+			}
 			return m.Interface()
 		}
 		return f.newModel()
@@ -593,6 +601,23 @@ func (e *Env) RunLaw(c LawCase) (map[string]interface{}, error) {
 	// mutate the clone: the original must not change
 	mutate(cl, c.Field, c.Mutation)
 	ev["unshared"] = same(values(m), before)
+	if c.Shape == "emptyAlloc" {
+		// what the clone now holds must also survive writes to the original (a shared backing array or map
+		// shows only then)
+		clAfter := values(cl)
+		oe := reflect.ValueOf(m).Elem()
+		ss := fieldByTag(oe, "ss")
+		ss.Set(reflect.Append(ss, reflect.ValueOf("written-to-the-original")))
+		if mm := fieldByTag(oe, "mss"); !mm.IsNil() {
+			mm.SetMapIndex(reflect.ValueOf("orig-key"), reflect.ValueOf("orig-value"))
+		}
+		if p := fieldByTag(oe, "os"); !p.IsNil() {
+			p.Elem().SetString("written-to-the-original")
+		}
+		if !same(values(cl), clAfter) {
+			ev["unshared"] = false
+		}
+	}
 	// a model differing in exactly this field is not equal (both directions)
 	other := mk()
 	mutate(other, c.Field, c.Mutation)
